@@ -68,4 +68,8 @@ def Diam.setOne (d : Diam α) (t1 : Nat) (v : α) : Diam α :=
 
 def Diam.set (d : Diam α) (ts : List Nat) (v : α) : Diam α := ts.foldl (fun d t => d.setOne t v) d
 
+/-- `diameter.sigma[t1,t2] = v`: a contact distance written straight into the (symmetric) sigma table, e.g. a non-additive mixture;
+it stays until one of the two diameters is assigned again -/
+def Diam.setSigma (d : Diam α) (t1 t2 : Nat) (v : α) : Diam α := { d with sigma := setSym d.sigma t1 t2 (some v) }
+
 def Diam.check (d : Diam α) : Bool := (List.range d.n).all fun t => (d.diam t).isSome
